@@ -267,26 +267,33 @@ def glue_two_qubit_verdict(f, cp, r, leaf):
     return "violation", f"its operands ({'; '.join(fmt(k) for ev in ops[:1] for k in ev[2])}) do not depend on the requested connectivity"
 
 
-def core_without_sign_layer(t):
-    """strip leading/trailing blocks of single-qubit emits that are not inside Cancel (the sign layer)"""
+def core_without_sign_layer(t, both_ends=False):
+    """strip the leading (and, on request, trailing) blocks of Pauli gates that are not inside Cancel: the sign layer"""
     if t[0] == "seq":
         parts = list(t[1])
         while parts and _only_1q_emits(parts[0]):
             parts.pop(0)
+        while both_ends and parts and _only_1q_emits(parts[-1]):
+            parts.pop()
         return t_seq(*parts) if parts else t_empty()
     return t
 
 
+PAULI_GATES = {"x", "y", "z", "id", "i"}
+
+
 def _only_1q_emits(t):
+    """a block of Pauli gates only: the sign layer (Paulis change signs, never the group)"""
     if t[0] == "emit":
-        return t[2] == 1
+        return t[2] == 1 and t[1] in PAULI_GATES
     if t[0] == "star":
-        return all(x[0] == "emit" and x[2] == 1 for x in t[1])
+        return all(x[0] == "emit" and x[2] == 1 and x[1] in PAULI_GATES for x in t[1])
     return False
 
 
-def P4_inverse(rep, flow: Flow, prep_fq="stabilizer_circuits.get_preparation_circuit", ro_fq="stabilizer_circuits.get_readout_circuit"):
-    rep.rule("P4", "the readout term is exactly the inverse (once) of the sign-free core of the preparation term", floor=1)
+def P4_inverse(rep, flow: Flow, prep_fq="stabilizer_circuits.get_preparation_circuit", ro_fq="stabilizer_circuits.get_readout_circuit", modulo_paulis=False):
+    rep.rule("P4", "the readout term is exactly the inverse (once) of the sign-free core of the preparation term" +
+             (" - up to layers of Pauli gates at either end (they flip signs, which the fitter recomputes from the stored circuit)" if modulo_paulis else ""), floor=1)
     preps = [r for r in flow.paths(prep_fq) if r.kind == "return"]
     ros = [r for r in flow.paths(ro_fq) if r.kind == "return"]
     if not preps or not ros:
@@ -294,11 +301,13 @@ def P4_inverse(rep, flow: Flow, prep_fq="stabilizer_circuits.get_preparation_cir
     cores = set()
     for r in preps:
         for (_, _, term) in circuits_of(r.describe()):
-            cores.add(norm_term(core_without_sign_layer(term)))
+            cores.add(norm_term(core_without_sign_layer(term, both_ends=modulo_paulis)))
     ro_f = flow.prog.func(ro_fq)
     for pi, r in enumerate(ros):
         for (_, _, term) in circuits_of(r.describe()):
             got = norm_term(t_inv(term))
+            if modulo_paulis:
+                got = norm_term(core_without_sign_layer(got, both_ends=True))
             if got in cores:
                 rep.ok("P4", 1, nontrivial=(ro_fq, pi), sample=f"readout = Inv({t_fmt(core_without_sign_layer(term) if False else t_inv(term))[:160]})")
             else:
